@@ -205,6 +205,23 @@ def _degenerate():
         br = WishboneCSRBridge(bus)
         return Harness(br, flat_ports(br, bus), br=br, bus=bus)
 
+    def mux_twins():
+        # two multiplexers over IDENTICAL layouts (two instances of one peripheral) in one design, with a sharing limit
+        # that forces the shadows to be re-balanced: they must not share anything
+        from amaranth.hdl import Module
+        top = Module()
+        regs, muxes = [], []
+        for k in range(2):
+            mm = MemoryMap(addr_width=4, data_width=8)
+            for i, (w, addr) in enumerate(((8, 0), (8, 1), (8, 2), (16, 3), (8, 5), (24, 9), (8, 12))):
+                r = StubReg(w, "rw")
+                mm.add_resource(r, name=(f"r{i}",), size=(w + 7) // 8, addr=addr)
+                regs.append(r)
+            mx = csr.Multiplexer(mm, shadow_overlaps=1)
+            top.submodules[f"mux{k}"] = mx
+            muxes.append(mx)
+        return Harness(top, flat_ports(*muxes, *regs), muxes=muxes)
+
     def csr_dec_frozen():
         # a decoder whose OWN memory map is frozen (it is a window of an outer map already, as when nested in another
         # decoder or placed behind a bridge), elaborated on its own - repeatedly, like every member of this family
@@ -230,7 +247,7 @@ def _degenerate():
         d.bus.memory_map.freeze()
         return Harness(d, flat_ports(d, *subs), dec=d)
 
-    return {"csr-decoder-with-frozen-map": csr_dec_frozen, "wishbone-decoder-with-frozen-map": wb_dec_frozen,
+    return {"two-identical-multiplexers-in-one-design": mux_twins, "csr-decoder-with-frozen-map": csr_dec_frozen, "wishbone-decoder-with-frozen-map": wb_dec_frozen,
             "mux-registers-wider-than-their-ranges": mux_wide_regs, "mux-sparse-40-bit-no-sharing": mux_sparse, "mux-empty": mux([]), "mux-write-only": mux(["w", "w"]), "mux-read-only": mux(["r"]), "csr-decoder-empty": csr_dec,
             "wishbone-decoder-empty": wb_dec, "wishbone-decoder-sub-word-sparse-windows": wb_dec_narrow, "arbiter-no-initiators": arb0, "event-monitor-no-events": evmap0, "event-monitor-700-events": evmap300,
             "csr-event-monitor-no-events": evmon0, "gpio-one-pin": gpio1, "sram-two-words": sram1,
@@ -326,7 +343,7 @@ REFUSALS = ["csr-add-twice", "csr-add-overlap", "csr-add-name-clash", "csr-add-o
             "wb-add-twice", "wb-add-overlap", "wb-add-after-freeze", "map-add-resource-after-freeze",
             "map-window-into-itself-twice"]
 
-DEGENERATE = ["csr-decoder-with-frozen-map", "wishbone-decoder-with-frozen-map", "mux-registers-wider-than-their-ranges", "mux-sparse-40-bit-no-sharing", "mux-empty", "mux-write-only", "mux-read-only", "csr-decoder-empty", "wishbone-decoder-empty", "wishbone-decoder-sub-word-sparse-windows",
+DEGENERATE = ["two-identical-multiplexers-in-one-design", "csr-decoder-with-frozen-map", "wishbone-decoder-with-frozen-map", "mux-registers-wider-than-their-ranges", "mux-sparse-40-bit-no-sharing", "mux-empty", "mux-write-only", "mux-read-only", "csr-decoder-empty", "wishbone-decoder-empty", "wishbone-decoder-sub-word-sparse-windows",
               "arbiter-no-initiators", "event-monitor-no-events", "event-monitor-700-events", "csr-event-monitor-no-events", "gpio-one-pin",
               "sram-two-words", "bridge-empty-map", "wishbone-csr-bridge-minimal"]
 
